@@ -296,8 +296,10 @@ class Handle : public sm::CollectorHandle {
 };
 class PullReader : public sm::MetricReader {
  public:
-  sm::AggregationTemporality GetAggregationTemporality(sm::InstrumentType) const noexcept override { return sm::AggregationTemporality::kDelta; }
+  explicit PullReader(bool cumulative = false) : cumulative_(cumulative) {}
+  sm::AggregationTemporality GetAggregationTemporality(sm::InstrumentType) const noexcept override { return cumulative_ ? sm::AggregationTemporality::kCumulative : sm::AggregationTemporality::kDelta; }
  private:
+  bool cumulative_;
   bool OnForceFlush(std::chrono::microseconds) noexcept override { return true; }
   bool OnShutDown(std::chrono::microseconds) noexcept override { return true; }
 };
@@ -318,6 +320,7 @@ struct Case {
   AList l1, l2;
   const std::set<std::string> *allow;  // nullptr: DefaultAttributesProcessor
   KeyShape shape;
+  bool cumulative = false;  // end-to-end part only: temporality of the reader (cumulative: the series pass the temporal merge, keyed by the stored sets)
   std::string desc() const { return show(l1) + " vs " + show(l2) + ", " + show(allow) + ", keys " + kShapeName[shape]; }
 };
 
@@ -424,7 +427,7 @@ void run_case(vf::Ctx &c, const Case &cs, bool through_meter) {
   } else {
     c.stage("Meter");
     sm::MeterProvider mp;
-    std::shared_ptr<PullReader> reader(new PullReader());
+    std::shared_ptr<PullReader> reader(new PullReader(cs.cumulative));
     mp.AddMetricReader(reader);
     std::unique_ptr<sm::View> view(new sm::View("cv", "view", "u", sm::AggregationType::kSum, nullptr, make_processor(cs.allow)));
     std::unique_ptr<sm::InstrumentSelector> is(new sm::InstrumentSelector(sm::InstrumentType::kCounter, "n", "u"));
@@ -446,7 +449,7 @@ void run_case(vf::Ctx &c, const Case &cs, bool through_meter) {
   std::sort(got.begin(), got.end());
   std::string gs;
   for (auto &p : got) gs += "{" + vfq::printable(p.first, 120) + "}=" + vf::sfmt("%lld ", (long long)p.second);
-  const char *seam = through_meter ? "meter" : "storage";
+  const char *seam = through_meter ? (cs.cumulative ? "meter-cumulative" : "meter") : "storage";
   Series want;
   if (must_equal) want = {{s1, 3}};
   else { want = {{s1, 1}, {s2, 2}}; std::sort(want.begin(), want.end()); }
@@ -737,6 +740,7 @@ void run(vf::Ctx &c) {
     cs.shape = (KeyShape)c.pick("keyshape", 3);
     cs.l1 = pick_list(c, "entry1", g_keys, g_small, 2);
     cs.l2 = pick_list(c, "entry2", g_keys, g_small, c.thorough() ? 2 : 1);
+    cs.cumulative = c.pick("reader", 2) == 1;
     run_case(c, cs, true);
   }
 }
